@@ -114,6 +114,48 @@ pub fn run(out: &mut Out, rng: &mut Rng, thorough: bool) {
             emit(out, "cospherical_pm1", &t);
         }
     }
+    // (iv) a tight cluster of four lattice points on a huge sphere and a fifth point of the same sphere far away from them
+    //      (a floating-point evaluation of the determinant is pure rounding noise here), exact and perturbed by one grid unit.
+    //      Points (X, ±s, ±t), (X, ±t, ±s) around `c` all have the same distance from `c`; so have (-X, s, t), (s, X, t), ...
+    let k = if thorough { 8000 } else { 1200 };
+    for i in 0..k {
+        let xb = [30u32, 36, 40, 44, 48, 50][i % 6];
+        let sb = [1u32, 3, 6, 10, 14][(i / 6) % 5];
+        let x = (1i64 << xb) + rng.range(0, 1 << (xb - 4));
+        let s = rng.range(1, 1 << sb);
+        let t = rng.range(0, 1 << sb);
+        let c = [1i64 << 51; 3];
+        let near_all: Vec<P> = vec![[x, s, t], [x, -s, t], [x, s, -t], [x, -s, -t], [x, t, s], [x, -t, s], [x, t, -s], [x, -t, -s]];
+        let mut near = near_all.clone();
+        near.sort();
+        near.dedup();
+        rng.shuffle(&mut near);
+        if near.len() < 4 {
+            continue;
+        }
+        let far_all: Vec<P> = vec![[-x, s, t], [s, x, t], [t, s, x], [-x, -t, s], [s, -x, -t], [-t, s, -x]];
+        let far = far_all[rng.below(6) as usize];
+        let mut tup: Vec<P> = near[..4].to_vec();
+        tup.push(far);
+        // the far point is the query point, or (less often) one of the four sphere points
+        if rng.chance(0.3) {
+            let j = rng.below(4) as usize;
+            tup.swap(j, 4);
+        }
+        let tr = |p: &P| -> P { [c[0] + p[0], c[1] + p[1], c[2] + p[2]] };
+        let base = [tr(&tup[0]), tr(&tup[1]), tr(&tup[2]), tr(&tup[3]), tr(&tup[4])];
+        if base.iter().any(|p| p.iter().any(|&q| q < 0 || q > MAXC)) {
+            continue;
+        }
+        emit(out, "cluster_far", &base);
+        for _ in 0..2 {
+            let mut t2 = base;
+            let j = rng.below(5) as usize;
+            let ax = rng.below(3) as usize;
+            t2[j][ax] = clampc(t2[j][ax] + if rng.bool() { 1 } else { -1 });
+            emit(out, "cluster_far_pm1", &t2);
+        }
+    }
     // the 8 corners of the full grid cube are co-spherical
     let big: Vec<P> = (0..8).map(|i| [(i & 1) as i64 * MAXC, ((i >> 1) & 1) as i64 * MAXC, ((i >> 2) & 1) as i64 * MAXC]).collect();
     for _ in 0..(if thorough { 2000 } else { 300 }) {
